@@ -28,7 +28,9 @@ MsgNames == {"Define", "Bind", "UpdateBinding", "Disable", "Enable", "RefundDepo
 ModNames == {"ModCreate", "ModPause", "ModStart", "ModKill", "ModUpdate"}
 SubNames == {"BeginEndBlock", "ExpireBatch", "Mid", "StartBatch", "EndBlock"}
 \* events that are not steps of the system: start of a new history, observation of the state
-MetaNames == {"reset", "Obs"}
+MetaNames == {"reset", "Obs", "PrepZeroHeight", "Genesis"}
+\* (zero-height preparation and export end a history: the chain stops there, and only C19 and
+\* C20 speak about those two steps)
 
 IsMeta(e) == e.name \in MetaNames
 Ok(e, n) == e.name = n /\ e.ok
@@ -539,6 +541,49 @@ Step_C16 ==
            /\ ~\E r \in actId' : r[1] = id /\ r[2] = b
            /\ ~\E a \in actBind' : a[4][1] = id /\ a[4][2] = b
            /\ (c.state = "completed" \/ fin) <=> id \notin DOMAIN ctx'
+
+-----------------------------------------------------------------------------
+(* C18 (the part visible in the lifecycle): a request's id records its context, batch  *)
+(* number, issue height and its position in that batch's issue event                  *)
+
+Step_C18 ==
+    LET e == ev' IN
+    (e.name = "StartBatch") =>
+        /\ \A r \in Issued :
+              /\ r[1] = e.id /\ r[3] = height
+              /\ e.id \in DOMAIN ctx' /\ r[2] = ctx'[e.id].batch
+              /\ req'[r].ctx = r[1] /\ req'[r].batch = r[2] /\ req'[r].rh = r[3]
+        /\ ("evreqs" \in DOMAIN e) =>
+              /\ Len(e.evreqs) = Cardinality(Issued)
+              /\ \A r \in Issued :
+                    /\ r[4] + 1 \in DOMAIN e.evreqs
+                    /\ LET x == e.evreqs[r[4] + 1]
+                       IN /\ x.ctx = r[1] /\ x.batch = r[2] /\ x.rh = r[3]
+                          /\ x.prov = req'[r].prov /\ x.fee = req'[r].fee /\ x.exp = req'[r].exp
+
+-----------------------------------------------------------------------------
+(* C19  state survives export and re-import; zero-height export returns all escrow *)
+
+\* the genesis-relevant part of a state: what export / import must preserve
+GenesisPart(df, bd, po, op, ob, wa, cx, pa) == <<df, bd, po, op, ob, wa, cx, pa>>
+
+Step_C19 ==
+    LET e == ev' IN
+    IF e.name = "PrepZeroHeight" THEN
+        /\ e.ok
+        /\ bal'[REQ] = 0
+        /\ \A a \in Ordinary :
+              bal'[a] = bal[a]
+                        + SumFees(req, {r \in actId : ConsOf(r) = a})   \* pending fees back to the consumer
+                        + Get0(earned, a)                                \* earnings to the provider
+        /\ bal'[DEP] = bal[DEP] /\ bal'[TAX] = bal[TAX] /\ supply' = supply
+        /\ DOMAIN ctx' = DOMAIN ctx
+        /\ \A id \in DOMAIN ctx' : ctx'[id].state = "paused" /\ ctx'[id].bstate = "completed"
+        /\ UNCHANGED <<defs, bind, powner, oprov, obind, waddr>>
+    ELSE TRUE
+
+\* the "Genesis" observation (export, validation, JSON round trip, import into a fresh
+\* application, second export) is judged in ServiceTrace, where the imported state is at hand
 
 -----------------------------------------------------------------------------
 (* C20 (state part): no step ends in a panic *)
